@@ -11,12 +11,18 @@
 //          END
 // output:  O <n> <op> <status> <hex or dump>
 #include <fix8/f8includes.hpp>
+#if defined VERIF_GEN_SCHEMA	// compiled against one generated schema (prefix gen, namespace GEN): C13/C14
+#include "gen_types.hpp"
+#include "gen_router.hpp"
+#include "gen_classes.hpp"
+#else
 #include "utest_types.hpp"
 #include "utest_router.hpp"
 #include "utest_classes.hpp"
 #include "f44_types.hpp"
 #include "f44_router.hpp"
 #include "f44_classes.hpp"
+#endif
 #include "vh.hpp"
 #include <fstream>
 #include <cxxabi.h>
@@ -24,7 +30,11 @@
 using namespace FIX8;
 static vh::Report R;
 
+#if defined VERIF_GEN_SCHEMA
+static const F8MetaCntx& ctx_of(const std::string&) { return GEN::ctx(); }
+#else
 static const F8MetaCntx& ctx_of(const std::string& n) { return n == "utest" ? UTEST::ctx() : F44::ctx(); }
+#endif
 
 static std::string field_text(const BaseField *f)
 {
